@@ -339,4 +339,42 @@ theorem inSlice_withinFn (w : List (List Int)) (v : List Int) (row : List Val) :
         Except.ok.injEq, false_iff, not_and]
       rintro e; rw [← e]; intro h'; exact absurd h' hl
 
+/-! ### a small concrete pipeline (non-vacuity examples, witnesses) -/
+
+/-- sum and count of column `x`, one output key -/
+def exAgg : Agg (List Val) Stat Rv :=
+  { out := ["o"], inKeys := some ["x"], m := statM (fun s => [Rv.nums [(s.s0, 1), (s.n0, 1)]]), dec := decCols }
+
+/-- mean of column `y`, slicing disabled, two output keys -/
+def exAgg2 : Agg (List Val) Stat Rv :=
+  { out := ["p", "q"], inKeys := some ["y"], m := statM (fun s => [Rv.nums [(s.s0, s.n0)], Rv.nums [(s.n0, 1)]]),
+    dec := decCols, noSlice := true }
+
+/-- `add_slice('a')` -/
+def exSlicer : Slicer := { name := ["a"], keys := ["a"], fn := .rows defaultFn }
+
+/-- `add_slice('a', replace_mask_false_with=0)` under another name -/
+def exSlicerRepl : Slicer := { name := ["a0"], keys := ["a"], fn := .rows defaultFn, replace := some 0 }
+
+/-- `add_slice({'a': (1,), 'b': (0, 1)})` -/
+def exSlicerWithin : Slicer :=
+  { name := ["a", "b"], keys := ["a", "b"], fn := .rows (withinFn [[1], [0, 1]]) }
+
+def exPipeline : Pipeline (List Val) Stat Rv := ⟨[exAgg, exAgg2], [exSlicer, exSlicerRepl, exSlicerWithin]⟩
+
+def exCol (xs : List Int) : Val := .seq false (xs.map .leaf)
+
+/-- three batches; slice `a = 2` first occurs in the last one, the middle batch is empty -/
+def exStream : List Batch :=
+  [[("a", exCol [1, 1]), ("b", exCol [0, 2]), ("x", exCol [5, 6]), ("y", exCol [1, 2])],
+   [("a", exCol []), ("b", exCol []), ("x", exCol []), ("y", exCol [])],
+   [("a", exCol [2, 1]), ("b", exCol [1, 1]), ("x", exCol [7, 8]), ("y", exCol [3, 4])]]
+
+/-- the same rows in one batch -/
+def exStreamOne : List Batch :=
+  [[("a", exCol [1, 1, 2, 1]), ("b", exCol [0, 2, 1, 1]), ("x", exCol [5, 6, 7, 8]), ("y", exCol [1, 2, 3, 4])]]
+
+theorem exPipeline_WF : exPipeline.WF :=
+  ⟨by decide, by decide, by decide, by decide⟩
+
 end MlModel.PipeAgg
